@@ -103,20 +103,22 @@ def convertRangeStft (x : Vec α) (nfft range : Nat) : Vec α :=
     mk nfft (fun j => if j < nfft - (h + 1) then rd x (h + 1 + j) else rd x (j - (nfft - (h + 1))))
   else x
 
-/-- `_convert_range_istft(x, nfft, range)` (`2 ≤ nfft`) -/
-def convertRangeIstft (x : Vec α) (nfft range : Nat) : Except String (Vec α) :=
+/-- the size `_convert_range_istft` asserts for a frame of the given range -/
+def frameLen (nfft range : Nat) : Nat := if range = 2 then nfft / 2 + 1 else nfft
+
+/-- the array `_convert_range_istft(x, nfft, range)` returns when its size assertion holds (`2 ≤ nfft`) -/
+def convertRangeIstftCore (x : Vec α) (nfft range : Nat) : Vec α :=
   let h := nfft / 2
-  if range = 2 then
-    if x.size ≠ h + 1 then .error "Input size must be equal `nfft/2+1` for `onesided` range"
-    else .ok (mk (h + 1 + (h - 1)) (fun j =>                              -- `x | flip(conj(x.slice(1, h)))`
-      if j < h + 1 then rd x j else Cx.conj (rd x (h - 1 - (j - (h + 1))))))
-  else if range = 0 then
-    if x.size ≠ nfft then .error "Input size must be equal `nfft` for `centered` range"
-    else .ok (mk nfft (fun j =>                                           -- `x.slice(h-1, nfft) | x.slice(0, h-1)`
-      if j < nfft - (h - 1) then rd x (h - 1 + j) else rd x (j - (nfft - (h - 1)))))
-  else
-    if x.size ≠ nfft then .error "Input size must be equal `nfft` for `twosided` range"
-    else .ok x
+  if range = 2 then                                                       -- `x | flip(conj(x.slice(1, h)))`
+    mk (h + 1 + (h - 1)) (fun j => if j < h + 1 then rd x j else Cx.conj (rd x (h - 1 - (j - (h + 1)))))
+  else if range = 0 then                                                  -- `x.slice(h-1, nfft) | x.slice(0, h-1)`
+    mk nfft (fun j => if j < nfft - (h - 1) then rd x (h - 1 + j) else rd x (j - (nfft - (h - 1))))
+  else x
+
+/-- `_convert_range_istft(x, nfft, range)` -/
+def convertRangeIstft (x : Vec α) (nfft range : Nat) : Except String (Vec α) :=
+  if x.size ≠ frameLen nfft range then .error "Input size must be equal `nfft` (`nfft/2+1` for the `onesided` range)"
+  else .ok (convertRangeIstftCore x nfft range)
 
 /-! ## `iscola` -/
 
@@ -180,8 +182,8 @@ def stftWith (rfwd : Nat → Array α → Vec α) (x win : Array α) (overlap nf
 
 /-! ## `istft` -/
 
-/-- the guard of `istft`: `norm < nseg * eps() ? 1 : norm` -/
-def normGuard (nseg : Nat) (v : α) : α := if v < Fn.ofNat nseg * eps then Fn.ofNat 1 else v
+/-- the guard of `istft`: `norm <= nseg * eps() ? 1 : norm` -/
+def normGuard (nseg : Nat) (v : α) : α := if v ≤ Fn.ofNat nseg * eps then Fn.ofNat 1 else v
 
 /-- accumulate `g i (t - i * hop)` over the frames `i < nseg` that cover sample `t`, in frame order, from `0` -/
 def overlapAdd (nseg hop nwin : Nat) (g : Nat → Nat → α) (t : Nat) : α :=
@@ -202,16 +204,15 @@ def istftWith (fwd : Nat → Vec α → Vec α) (xx : Array (Vec α)) (win : Arr
   if nfft < 2 then .error "FFT plan size error" else
   if nfft % 2 ≠ 0 then .error "ifft size must be even" else
   if 0 < nseg ∧ nfft < nwin then .error "Right slice index out of range" else
-  match xx.mapM (fun f => convertRangeIstft f nfft range) with
-  | .error e => .error e
-  | .ok fr =>
-    let ys : Array (Array α) := fr.map (irfftCore fwd nfft)
-    let nom (j : Nat) : α := if method = 0 then Fn.ofNat 1 else rdR win j          -- `power(win, a)`
-    let den (j : Nat) : α := if method = 0 then rdR win j else rdR win j * rdR win j -- `power(win, a + 1)`
-    .ok (mkR xlen (fun t =>
-      let acc := overlapAdd nseg hop nwin (fun i j => rdR (ys.getD i #[]) j * nom j) t
-      let nrm := overlapAdd nseg hop nwin (fun _ j => den j) t
-      acc / normGuard nseg nrm))
+  if ¬ xx.all (fun f => f.size == frameLen nfft range) then .error "Input size must be equal `nfft` (`nfft/2+1` for the `onesided` range)" else
+  -- `y = irfftp(_convert_range_istft(xx[i], nfft, range)).slice(0, nwin)` for every frame
+  let ys : Array (Array α) := Array.ofFn (n := nseg) (fun i => irfftCore fwd nfft (convertRangeIstftCore (xx.getD i.val #[]) nfft range))
+  let nom (j : Nat) : α := if method = 0 then Fn.ofNat 1 else rdR win j          -- `power(win, a)`
+  let den (j : Nat) : α := if method = 0 then rdR win j else rdR win j * rdR win j -- `power(win, a + 1)`
+  .ok (mkR xlen (fun t =>
+    let acc := overlapAdd nseg hop nwin (fun i j => rdR (ys.getD i #[]) j * nom j) t
+    let nrm := overlapAdd nseg hop nwin (fun _ j => den j) t
+    acc / normGuard nseg nrm))
 
 /-! ## instances on top of C01's forward transforms -/
 
